@@ -200,3 +200,26 @@ def mapping_arguments(ctx):
                   "a dictionary-like argument that is not a dict subclass (another Share, a MappingProxyType) is iterated as a "
                   "sequence of duples: its keys are unpacked character by character into bogus fields or raise ValueError, and "
                   "update() never stamps")
+    data_delete_through_odict(ctx)
+
+
+def data_delete_through_odict(ctx):
+    """Data binds an odict as its instance __dict__ and routes attribute *stores* through the odict's __setitem__; deletion needs
+    the same: object.__delattr__ removes the key at the C level, without odict.__delitem__, and leaves the ordered key list
+    stale (keys() lists the deleted field, items() raises KeyError)."""
+    ctx.rule("T6-delete", "Data.__delattr__ deletes a field through self.__dict__.__delitem__ (sibling of __setattr__)")
+    D = ctx.cls("storing", "Data")
+    da = D.methods.get("__delattr__")
+    if da is None:
+        ctx.bad("T6-delete", D.node, "Data has no __delattr__",
+                "del data.field / del share[field] go through object.__delattr__: the field leaves the dict but stays in the odict's "
+                "key list - keys() still lists it, len() disagrees, items() raises KeyError")
+        return
+    V = FuncView(ctx, da)
+    dl = [n for n, c in V.attr_calls(("__delitem__",)) if src(V.sym(c.func.value, n)) == "self.__dict__"] + \
+        [n for n in V.cfg.nodes if isinstance(n.ast, ast.Delete) and any(src(t).startswith("self.__dict__[") for t in n.ast.targets)]
+    ctx.check(bool(dl) and "key in self.__dict__" in V.symfacts(dl[0]) or bool(dl) and not V.facts(dl[0]), "T6-delete", da,
+              "Data.__delattr__ removes a stored field with self.__dict__.__delitem__(key)",
+              "a field must leave the odict through the odict's own delete so that the ordered key list follows")
+    sh = ctx.cls("storing", "Share").own_method("__delitem__")
+    ctx.check("delattr(self._data" in src(sh) or "self._data.__dict__" in src(sh), "T6-delete", sh, "Share.__delitem__ deletes through the Data record", "")
